@@ -308,13 +308,20 @@ def coqchk(chk, module):
 # reference in a sibling comprehension of the same function raises UnboundLocalError.  The Python source
 # Hy emitted is correct.  Such a case is not a violation of the Hy property: it is re-judged by running
 # the very source Hy emitted under an independent interpreter without comprehension inlining.
+# Second symptom of the same inlining: an iteration variable that a closure inside the comprehension
+# captures (a cell) stays bound in the containing function after the comprehension where that name is a
+# free variable of the function -- `def f(): [(lambda: z)() for z in ..]; z` reads the last element
+# instead of the enclosing z (NameError if that is unassigned).  3.11 does not show it.
 
 INDEP_PY = "/usr/bin/python3"
 INDEP_RUNNER = os.path.join(vlib.VERIF, "props", "indep_runner.py")
 DEVIATION = "cpython-3.12.1-comprehension-inlining-bug"
 DEVIATION_TRUST = ("tolerated deviation of the implementation interpreter from Python's semantics: CPython 3.12.1 raises "
                    "UnboundLocalError in functions with several inlined comprehensions (PEP 709) that use one name as an "
-                   "iteration variable and as a global reference; only when the real run ends in UnboundLocalError, the "
+                   "iteration variable and as a global reference, and lets the iteration variable of an inlined comprehension "
+                   "that a closure inside it captures leak into the containing function; only when the real run ends in "
+                   "UnboundLocalError, or the emitted Python has, inside a function, a list/set/dict comprehension that "
+                   "contains a lambda, def or nested comprehension, the "
                    "Python source Hy emitted (must not mention hy besides `import hy`) is re-run under %s (< 3.12) and the case "
                    "counts as conforming only if that run gives exactly the expected log, exception kind and names" % INDEP_PY)
 _indep_ok = [None]
@@ -343,13 +350,33 @@ def run_independent(src, names):
         return None
 
 
+def inlined_comprehension_with_closure(py):
+    """the emitted Python has, inside a function, a comprehension PEP 709 inlines (list/set/dict) that contains
+    a closure (lambda, def, nested comprehension or generator expression)"""
+    import ast
+    try:
+        tree = ast.parse(py)
+    except SyntaxError:
+        return False
+    inl = (ast.ListComp, ast.SetComp, ast.DictComp)
+    clo = (ast.Lambda, ast.FunctionDef, ast.AsyncFunctionDef, ast.ListComp, ast.SetComp, ast.DictComp, ast.GeneratorExp)
+    for fn in ast.walk(tree):
+        if isinstance(fn, (ast.FunctionDef, ast.AsyncFunctionDef, ast.Lambda)):
+            for c in ast.walk(fn):
+                if isinstance(c, inl) and any(isinstance(n, clo) and n is not c for n in ast.walk(c)):
+                    return True
+    return False
+
+
 def tolerate_interpreter_deviation(chk, r, names, conforms, program):
     """r: the worker's result of the real run; conforms(result) -> bool judges a result against the reference.
-    True iff the real run ended in UnboundLocalError and the emitted Python behaves as expected elsewhere."""
+    True iff the real run ended in UnboundLocalError (or has an inlined comprehension containing a closure) and
+    the emitted Python behaves exactly as expected under the independent interpreter."""
     import re
     exc = r.get("exc") or ""
     py = r.get("py")
-    if not exc.startswith("UnboundLocalError") or not py or not indep_available():
+    if not py or not (exc.startswith("UnboundLocalError") or inlined_comprehension_with_closure(py)) \
+            or not indep_available():
         return False
     src = "\n".join(l for l in py.splitlines() if l.strip() != "import hy")
     if re.search(r"\bhy\b", src):
